@@ -385,7 +385,9 @@ impl C08 {
                 RunKind::Sweep(i) if (i / 39) % 2 == 0 => Unit::Reset { v, zero: 0 },
                 RunKind::Sweep(_) => Unit::Serial { v, session: cur.0, serial: cur.1 },
                 RunKind::Random => match t.choose(5) {
-                    0 => Unit::Reset { v, zero: if t.chance(1, 4) { *t.pick(&[1u16, 0x100, 0xffff, 0x0a0b]) } else { 0 } },
+                    // (RFC 8210 section 5: "MUST be ignored on receipt"; RFC 6810 only
+                    // says MAY, so version 0 queries keep the field at zero)
+                    0 => Unit::Reset { v, zero: if t.chance(1, 4) && v >= 1 { *t.pick(&[1u16, 0x100, 0xffff, 0x0a0b]) } else { 0 } },
                     1 => Unit::Serial { v, session: cur.0, serial: cur.1 },
                     2 => Unit::Serial { v, session: cur.0, serial: cur.1.wrapping_sub(1 + t.choose(3) as u32) },
                     3 => Unit::Serial { v, session: cur.0.wrapping_add(1 + t.choose(5) as u16), serial: cur.1 },
